@@ -26,10 +26,14 @@ data channel (DTP timeout on the simulated clock) at tape-chosen moments, feeds
 and drains it in tape-chosen pieces, closes it mid-transfer, and may drop the
 control connection at a tape-chosen step.
 
-State of the root and refusals by the file system.  The root does not always hold the full tree: in 30% of the runs it is a
-chain of empty directories a/b/c, a single file, or empty (fresh account / emptied upload area; POPULATIONS) while the
-client names the same paths, so that operations fail half-way, create their intermediate directories, or leave every
-directory up to the root itself empty.  New names may lie below new intermediate directories, have a last component
+State of the root and refusals by the file system.  The root does not always hold the full tree: in 35% of the runs it is a
+chain of empty directories a/b/c, a single file, empty (fresh account / emptied upload area) or DOES NOT EXIST at all when the
+client logs in (a home directory nobody created - ftp.FTPRealm hands out userHome.child(name) without looking - or one that an
+earlier session removed with 'RMD /'; POPULATIONS) while the client names the same paths, so that operations fail half-way,
+create their intermediate directories (up to the root itself), find a non-directory where they expected the root, or leave every
+directory up to the root itself empty.  Now and then the client logs in AGAIN in the middle of the session (same or other
+account, logged_in_again:* probes): the realm hands out a new shell - fresh FilePath objects, none of the stat results the old
+shell had cached - on the file system as the session has left it so far (root emptied, removed, replaced by a file).  New names may lie below new intermediate directories, have a last component
 longer than NAME_MAX or be longer than PATH_MAX as a whole (ENAMETOOLONG after the parents were made).  In 20% of the
 sessions ONE filesystem call that the server makes on a path inside the root (the k-th mkdir / open / rmdir / remove /
 rename / listing, or the k-th of any kind) is refused with a drawn errno (ENOSPC, EACCES, EIO, EROFS, EDQUOT,
@@ -126,8 +130,10 @@ COMPONENTS = {
              "the FTP client (scripted)", "the realm (returns the recording shell subclasses)", "clock (detsim.clock.SimClock behind the global SimReactor)"],
 }
 RULE = ("run = one FTP session (94%): optional pre-login command, login (anonymous or writable user; 15% switch to TYPE A), 1-25 commands from the hostile path grammar "
-        "(CWD/CDUP/PWD/SIZE/MDTM/LIST/NLST/RETR/STOR/APPE/DELE/MKD/RMD/RNFR-RNTO with commands in between/working directory removed or renamed under the session/misc), "
-        "one closing relative SIZE; the root starts fully populated (70%) or as a chain of empty directories / one file / empty (fresh account), new names may need new "
+        "(CWD/CDUP/PWD/SIZE/MDTM/LIST/NLST/RETR/STOR/APPE/DELE/MKD/RMD/RNFR-RNTO with commands in between/working directory removed or renamed under the session/"
+        "a new USER+PASS login as the same or the other account (new shell from the realm, working directory reset)/misc), "
+        "one closing relative SIZE; the root starts fully populated (64%) or as a chain of empty directories / one file / empty (fresh account) / not existing at all "
+        "(home directory never created or removed by an earlier session; 9%), new names may need new "
         "intermediate directories or exceed NAME_MAX / PATH_MAX, every path argument is a spelling of the root itself now and then ('/', as many '..' as the cwd is deep, "
         "'a/b/../..', '/./' ...), in 20% of the sessions the k-th filesystem call of a drawn class on a path inside the root is refused "
         "with a drawn errno (os_refusal:* faults; a refused rename may get EXDEV / ENOTEMPTY / EISDIR) and in 15% directories inside the root are other file systems "
@@ -151,6 +157,12 @@ ASSUMPTIONS = [
     "the root's own directory entry counts as inside the root (the oracle's definition: 'the root or below it'): a session that removes its emptied root ('RMD /' on an "
     "empty root succeeds on the unchanged tree, and a following 'STOR /' then creates a plain file under the root's name) has touched nothing outside; only a symbolic link "
     "appearing under the root's name is reported by outside-unchanged",
+    "the root need not exist when the client logs in (population 'missing': FTPRealm never looks, and 'RMD /' by an earlier session removes it): its place in the parent "
+    "directory is given, and only what happens at that name or below it is inside.  In ROOT_BASE_MISSING_P = 0.3 of the 'missing' runs the directory that holds the root is "
+    "missing as well: 'MKD x' on the tree as first examined then created the root's ancestors (outside the root by the letter of the statement: genuine defect, REPAIRED in "
+    "/repo 89087ce, see MUTANTS G1)",
+    "a second USER/PASS in the authenticated state is an ordinary part of 'any sequence of commands'; which account the client holds afterwards only decides which shell "
+    "class serves the next commands - the verdicts are the same for both",
     "an injected refusal (OSError raised by the audit hook for one call on a path inside the root) stands for what the kernel may answer to any such call (disk full, quota, "
     "read-only remount, permissions, I/O error, a concurrent process creating/removing the entry); it is never injected for paths outside the root or for the interpreter's own "
     "file accesses, and the refused call is still logged as an (inside) access.  How the server reports the failure gets no verdict",
@@ -333,14 +345,28 @@ GATE = _Gate()
 # What the root holds when the session starts (index 0 = the fully populated tree).  The client's script names the same
 # directories and files whatever is there: on a sparse or empty root most of them are simply missing, MKD/STOR of a nested name
 # creates its intermediate directories, and whatever empties a directory leaves its ancestors - up to the root itself - empty.
-POPULATIONS = [("full", 14), ("chain", 2), ("onefile", 1), ("empty", 3)]
+POPULATIONS = [("full", 14), ("chain", 2), ("onefile", 1), ("empty", 3), ("missing", 2)]
+# "missing": the root directory does not exist when the client logs in - a home directory that was never created (ftp.FTPRealm hands out
+# userHome.child(name) without looking) or that an earlier session removed ('RMD /' on an emptied root succeeds).  Everything the
+# server does then starts from a path that is not a directory: what it creates on the way (the root itself, by MKD) is inside, what
+# it puts beside a target that is the root is not.
+# Share of the "missing" runs in which the directory that should hold the root is missing as well (<parent>/home/<root> with no
+# <parent>/home: the operator never created the home base).  On the tree as first examined 'MKD x' then created the root's missing
+# ANCESTORS (os.makedirs), which lie outside the root: fs-confined:os.mkdir:root-ancestor + outside-unchanged:changed - genuine defect
+# (deviation from the letter of the statement), REPAIRED in /repo 89087ce (see MUTANTS, "G1").  The precondition is let into this
+# share (0.3) of the "missing" runs; 0 keeps it out and is only for dev-time comparison.
+ROOT_BASE_MISSING_P = 0.3
+# Share of the commands (weight out of ~45) that log in AGAIN in the middle of the session (USER/PASS in the authenticated state is
+# legal: the server asks its realm for a new shell - a fresh FilePath without the cached stat results of the old one - and resets the
+# working directory): the same account or the other one, the file system as the session has left it so far.
+RELOGIN_WEIGHT = 1
 
 
 class Scratch:
     """parent/ (random name, never logged)
          secret.txt  unl1sted_p      <- must stay untouched
          <root>/ ...                  <- the shell's root: fully populated / a chain of empty directories a/b/c /
-                                         one file / empty (fresh account, emptied upload area)
+                                         one file / empty (fresh account, emptied upload area) / not there at all
          <root><suffix>/ hidden.txt unl1sted_s   <- sibling whose name has the root's name as a prefix
     """
 
@@ -349,13 +375,14 @@ class Scratch:
         self.sibname = self.rootname + sim.draw_choice(["2", "-old", ".bak", "lic"], "sibsuffix")
         self.dup_inside = sim.draw_bool(0.5, "dup_inside")
         self.population = sim.draw_weighted(POPULATIONS, "population")
+        self.base_missing = (self.population == "missing" and ROOT_BASE_MISSING_P > 0 and sim.draw_bool(ROOT_BASE_MISSING_P, "root_base_missing"))
         self.parent = None
         self.root = None
 
     def build(self):
         self.parent = os.path.realpath(tempfile.mkdtemp(prefix="verif_c54_", dir=scratch_root()))
         P = self.parent
-        self.root = os.path.join(P, self.rootname)
+        self.root = os.path.join(P, "home", self.rootname) if self.base_missing else os.path.join(P, self.rootname)
         self.sib = os.path.join(P, self.sibname)
         self.dirs = [[], ["a"], ["a", "b"], ["a", "b", "c"], ["sp ace"], ["d2"]]
         self.files = [["f0.txt"], ["a", "f1.txt"], ["a", "b", "f2.txt"], ["a", "big.bin"], ["sp ace", "x y"], ["we*rd"], ["back\\slash"],
@@ -370,8 +397,10 @@ class Scratch:
             self.present_dirs, self.present_files = self.dirs[:4], []
         elif self.population == "onefile":
             self.present_dirs, self.present_files = self.dirs[:1], self.files[:1]
-        else:
+        elif self.population == "empty":
             self.present_dirs, self.present_files = self.dirs[:1], []
+        else:
+            self.present_dirs, self.present_files = [], []          # not even the root
         for d in self.present_dirs:
             os.makedirs(os.path.join(self.root, *d), exist_ok=True)
         for f in self.present_files:
@@ -395,6 +424,8 @@ class Scratch:
             return "parent"
         if M.inside(self.sib, np):
             return "sibling"
+        if M.inside(np, self.root):
+            return "root-ancestor"
         if os.path.dirname(np) == self.parent and os.path.basename(np) in ("secret.txt", NMARK + "_p"):
             return "secret"
         return "other"
@@ -403,9 +434,9 @@ class Scratch:
         """Everything in the parent outside the root: name -> (type, mode, content)."""
         out = {}
         for dirpath, dirnames, filenames in os.walk(self.parent):
-            if dirpath == self.parent:
+            if dirpath == os.path.dirname(self.root):
                 # the entry under the root's own name is the root, whatever the session left there (a directory; nothing, after 'RMD /'
-                # on an emptied root; a file, after a following 'STOR /'): see <rootentry> below
+                # on an emptied root or when the home directory was never made; a file, after a following 'STOR /'): see <rootentry> below
                 dirnames[:] = [d for d in dirnames if d != self.rootname]
                 filenames = [f for f in filenames if f != self.rootname]
             dirnames.sort()
@@ -855,13 +886,29 @@ def gen_script(sim, env, cfg):
         cmds.append(b"TYPE A")
     g.attempts = 0
     n = sim.draw_int(1, 25, "ncmds")
-    W = cfg["writable"]
-    weights = [("CWD", 6), ("CDUP", 2), ("PWD", 1), ("SIZE", 2), ("MDTM", 1), ("LIST", 3), ("NLST", 2), ("RETR", 4), ("STOR", 4 if W else 1), ("APPE", 1),
-               ("DELE", 3 if W else 1), ("MKD", 3 if W else 1), ("RMD", 2 if W else 1), ("REN", 4 if W else 1), ("misc", 2), ("VANISH", 2 if W else 0)]
+    W = cfg["writable"]       # the account the client is logged in as right now (it may log in again, see LOGIN)
     while n > 0:
         n -= 1
+        weights = [("CWD", 6), ("CDUP", 2), ("PWD", 1), ("SIZE", 2), ("MDTM", 1), ("LIST", 3), ("NLST", 2), ("RETR", 4), ("STOR", 4 if W else 1), ("APPE", 1),
+                   ("DELE", 3 if W else 1), ("MKD", 3 if W else 1), ("RMD", 2 if W else 1), ("REN", 4 if W else 1), ("misc", 2), ("VANISH", 2 if W else 0),
+                   ("LOGIN", RELOGIN_WEIGHT)]
         k = sim.draw_weighted(weights, "cmd")
-        if k == "CWD":
+        if k == "LOGIN":
+            # a new login on the same control connection: the realm hands out a NEW shell (fresh FilePath objects: nothing the old shell
+            # had cached about the root survives), the working directory is the root again; the file system is as the session left it
+            who = sim.draw_choice(["same", "other"], "relogin")
+            if who == "other":
+                W = not W
+            if W:
+                if sim.draw_bool(0.1, "badpass"):
+                    cmds += [b"USER alice", b"PASS wrong"]
+                cmds += [b"USER alice", b"PASS pw"]
+            else:
+                cmds += [b"USER anonymous", b"PASS a@b"]
+            g.cwd = []
+            g.writable = W
+            sim.probe("logged_in_again:%s_account" % who)
+        elif k == "CWD":
             p = g.path("dir")
             cmds.append(sim.draw_choice([b"CWD ", b"cwd ", b"CWD  "], "cwdform") + enc(p))
             g.note_cwd(p)
@@ -1486,7 +1533,10 @@ def run(sim):
         if _AUD["budget"]["left"] < 0:
             sim.probe("fs_call_budget_exhausted_no_verdict")
             sim.event("fs-call-budget-exhausted")
-        if not os.path.lexists(env.root):
+        if env.population == "missing":
+            if os.path.lexists(env.root):
+                sim.probe("missing_root_made_by_session_no_verdict")   # 'MKD x' creates the root on its way (a 'STOR /' a plain file): inside
+        elif not os.path.lexists(env.root):
             sim.probe("root_itself_removed_by_session_no_verdict")     # e.g. 'RMD /' on an empty root: the root is not outside the root
         # (a following 'STOR /' may leave a plain file there, about one run in 16000: still the root's own name, see Scratch.snapshot)
         after = env.snapshot()
@@ -1549,6 +1599,17 @@ MUTANTS = [
     "X1 ftp.py FTPShell.rename: fp.moveTo(tp) instead of os.rename (FilePath's EXDEV fallback copies to destination.temporarySibling(); seed C54-r5a) -> caught "
     "fs-confined:os.mkdir:other / open:other (14 of the first 8000 runs: RNTO '/', '..', 'a/..' with the source on another file system); missed before (no EXDEV, RNTO rarely the root). "
     "The same change copies a directory into itself for 'RNFR a' + 'RNTO a/b/n' across a mount: the FS_CALL_BUDGET bound ends such runs",
+    # ---- round 6: code that works beside its argument when the argument is the root and the root is NOT A DIRECTORY (yet / any more).  Needs the "missing" population
+    #      (root_population:missing) or a root removed under the session followed by a new login (logged_in_again:*), plus a root spelling as the argument
+    "Y1 ftp.py FTPShell.openForWriting: the upload goes to p.temporarySibling('.part') and _FileWriter.close() moves it into place (seed C54-r6b) -> caught "
+    "fs-confined:open:other at run 153 of the quick tier ('STOR .' / 'STOR /' on a root that does not exist: the partial file is made in the root's parent); missed before "
+    "(with an existing root p.isdir() refuses the upload first; within one login the root FilePath's cached stat still says 'directory' after 'RMD /')",
+    "G1 GENUINE DEFECT of the tree as first examined, REPAIRED in /repo 89087ce (knob ROOT_BASE_MISSING_P = 0.3 lets its precondition into that share of the 'missing' runs; 0 only "
+    "for dev-time comparison): with ROOT_BASE_MISSING_P > 0 the root is <parent>/home/<name> and <parent>/home "
+    "does not exist either; 'USER alice, PASS pw, MKD f0.txt' -> FTPShell.makeDirectory -> FilePath.makedirs -> os.makedirs created <parent>/home, then the root, then the "
+    "directory: fs-confined:os.mkdir:root-ancestor (and outside-unchanged:changed), run 53 of a quick tier at 0.5.  Stand-alone (before the repair): "
+    "FTPShell(FilePath(t).child('users').child('alice')).makeDirectory(['x']) created t/users; STOR in the same state answers ENOENT and creates nothing.  Repair: "
+    "makeDirectory answers ENOENT when the root's parent is not a directory",
     # ---- one layer broken, the other still confines: property holds, instrumentation reports it
     "M1 toSegments: '..' at depth 0 appended instead of InvalidPath -> masked (FilePath.child raises InsecurePath -> 550); ftp_layer_passed_unconfined_segments_no_verdict = 41030",
     "M1b toSegments: '..' at depth 0 silently ignored -> equivalent for C54 (stays in the root); no probe",
